@@ -145,6 +145,18 @@ theorem C04_equal_iff (a b : NodeID) (ha : WF a) (hb : WF b) :
   rw [← key]
   simp [equal]
 
+/-- THE REGISTRIES (typereg.go key their maps by the string form): a type registered under `a` is
+    found under `b` exactly when `a` and `b` are the same node — whatever numeric encoding or flag
+    bits either carries, and never across namespaces -/
+theorem C04_registry_hit_iff (a b : NodeID) (ha : WF a) (hb : WF b) (ty : Nat) :
+    regLookup [(toString a, ty)] b = some ty ↔ SameNode a b := by
+  rw [← (C04_equal_iff a b ha hb).1]
+  simp only [regLookup, List.find?_cons, List.find?_nil]
+  by_cases h : toString a = toString b
+  · simp [h]
+  · have : (toString a == toString b) = false := by simpa using h
+    simp [this, h]
+
 /-- the parsed NodeID is `Equal` to the original (the property as stated, full strength) -/
 theorem C04_roundtrip_equal (n : NodeID) (h : WF n) :
     ∃ t n', toString n = some t ∧ parseNodeID t = some n' ∧ WF n' ∧ SameNode n' n ∧ equal n' n = true := by
